@@ -86,7 +86,15 @@ func (nd *KVNode) scanCommand(cmd redcon.Command) (interface{}, error) {
 	if length < count || (count == 0 && length == 0) {
 		nextCursor = []byte("")
 	} else {
-		nextCursor = ay[len(ay)-1]
+		// the cursor is the key without the table, as for advscan: the merge layer puts the
+		// table in front of the cursor of each partition when the scan is continued
+		item := ay[len(ay)-1]
+		_, rk, err := common.ExtractTable(item)
+		if err != nil {
+			nextCursor = []byte("")
+		} else {
+			nextCursor = rk
+		}
 	}
 
 	if length > 0 {
